@@ -401,6 +401,15 @@ def rule_A_TXN(ctx, repo, cache):
             for n in ast.walk(mfi.node):
                 if isinstance(n, ast.Constant) and isinstance(n.value, str) and _re.match(r'\s*begin\b', n.value, _re.I):
                     okb = bool(_re.match(r'\s*begin\s+(immediate|exclusive)\b', n.value, _re.I))
+                    if not okb:
+                        # the upgrade can only fail for a transaction that reads and then writes: a BEGIN that is followed by neither in this routine
+                        # (restoring "a transaction is open" after a failed bulk insert) holds no SHARED lock to upgrade
+                        later = [y for y in ast.walk(mfi.node) if getattr(y, 'lineno', 0) > n.lineno]
+                        reads = any((isinstance(y, ast.Attribute) and 'select' in y.attr.lower()) or
+                                    (isinstance(y, ast.Constant) and isinstance(y.value, str) and _re.match(r'\s*select\b', y.value, _re.I)) for y in later)
+                        writes = any((isinstance(y, ast.Attribute) and y.attr in ('__setitem__', '__delitem__', 'executemany')) or
+                                     (isinstance(y, ast.Constant) and isinstance(y.value, str) and _re.match(r'\s*(insert|update|delete|replace)\b', y.value, _re.I)) for y in later)
+                        okb = not (reads and writes)
                     ctx.ob('A-TXN', '%s.%s: `%s` takes the write lock' % (ci.label, mname, n.value.strip()[:30]), okb)
                     if not okb:
                         ctx.fail('A-TXN', mq(ci, mname), 'deferred transaction `%s`' % n.value.strip()[:30],
@@ -1128,6 +1137,28 @@ def rule_A_INITRAISE(ctx, repo):
                      '%s.__init__ can refuse to open an existing location (`%s`): what a killed or failed writer left there - e.g. only a staging directory, before '
                      'the first entry was published - then makes the archive unopenable for every later process, although no completed store was lost'
                      % (lab, ' '.join(unparse(x).split())[:70]), '%s:%d' % (m.rel, x.lineno))
+    # ... nor does a failure to create the directory escape: the constructor also runs when a pickled archive (or cached function) is restored, with only
+    # the base name and relative to the restoring process's working directory, before __state__ is put back - whatever is found under that name there
+    # (a plain file, a read-only directory) must not make the restore fail
+    cache_ = Cache(repo, unroll=1)
+    for lab in ('dir_archive', 'hdfdir_archive[hdf]'):
+        ci = m.classes.get(lab)
+        if ci is None or '__init__' not in ci.methods:
+            continue
+        fi, outs, eng = cache_.outs(ci, '__init__')
+        bad = None
+        for o in outs:
+            if o.kind == RAISE and o.exc in ('OSError', 'FileExistsError', 'PermissionError') and any(e.kind == 'MKDIR!' for e in o.st.events):
+                bad = o
+                break
+        ctx.ob('A-OPEN', '%s.__init__: a failed mkdir of the location does not escape' % lab, bad is None)
+        if bad is not None:
+            e = [e for e in bad.st.events if e.kind == 'MKDIR!'][-1]
+            ctx.fail('A-OPEN', mq(ci, '__init__'), 'mkdir failure escapes the constructor',
+                     '%s.__init__ lets the OSError of creating its directory escape (%s): __reduce__ re-runs the constructor with the base name only, relative to the '
+                     'working directory of the restoring process, so a file of that name there (or a read-only directory) makes dill.loads of the archive - and of every '
+                     'cached function that holds it - fail, where the unchanged constructor falls back to the absolute path and lets __state__ be restored'
+                     % (lab, wh(ci, e.line)), wh(ci, e.line), render_path(bad))
     if n < 2:
         raise AnalysisError('instance count below confirmed minimum: %d archive constructors (< 2)' % n)
 
@@ -1401,6 +1432,13 @@ def init_param_keys(ci):
             for k, v in zip(n.value.keys, n.value.values):
                 if isinstance(k, ast.Constant) and isinstance(v, ast.Name) and v.id in params:
                     out[v.id] = k.value
+            # a setting that passes through a helper on its way into the state (`'permissions': _dirmode(cls, mode, kwds)`: a renamed option that still
+            # fills its old key): the one constructor parameter named in the value fills that key
+            for k, v in zip(n.value.keys, n.value.values):
+                if isinstance(k, ast.Constant) and isinstance(v, ast.Call):
+                    named = [y.id for y in ast.walk(v) if isinstance(y, ast.Name) and y.id in params]
+                    if len(set(named)) == 1 and named[0] not in out:
+                        out[named[0]] = k.value
     return out, params
 
 
@@ -2666,6 +2704,17 @@ def rule_A_RED_DERIVED(ctx, repo):
                     out |= localdeps[y.id]
                 if isinstance(y, ast.Subscript) and isinstance(y.value, ast.Attribute) and y.value.attr == '__state__' and isinstance(y.slice, ast.Constant):
                     out |= state_src.get(y.slice.value, set(['<state %s>' % y.slice.value]))
+                # self._get_names() / self._file: a method or property of the class that reads the settings carries their dependences
+                if isinstance(y, ast.Attribute) and isinstance(y.value, ast.Name) and y.value.id == selfn and isinstance(y.ctx, ast.Load):
+                    bodies = []
+                    if y.attr in ci.methods and y.attr != '__init__':
+                        bodies.append(ci.methods[y.attr].node)
+                    if y.attr in ci.properties and ci.properties[y.attr][0] is not None:
+                        bodies.append(ci.properties[y.attr][0].node)
+                    for b in bodies:
+                        for z in ast.walk(b):
+                            if isinstance(z, ast.Subscript) and isinstance(z.value, ast.Attribute) and z.value.attr == '__state__' and isinstance(z.slice, ast.Constant):
+                                out |= state_src.get(z.slice.value, set(['<state %s>' % z.slice.value]))
             return out
         # locals computed from the arguments (protocol = kwds.get('protocol', None)) carry their dependences
         for _round in range(4):
@@ -2922,3 +2971,51 @@ def rule_A_PATHNORM(ctx, repo):
                              'and where the refusal lands in a handler that ignores failures the entry silently never reaches the archive'
                              % (lab, mname, unparse(a)[:60], '/'.join(sorted(sa)), unparse(b)[:60], '/'.join(sorted(sb))), '%s:%d' % (m.rel, x.lineno))
     ctx.ob('A-PATH', 'path comparisons involving realpath examined', True, n=max(n, 1))
+
+
+def rule_A_UPDATE_ARG(ctx, repo):
+    """A-EQ (update takes what dict.update takes): a mapping, an object with keys(), or any iterable of pairs, plus keywords.  `self.__asdict__() | adict`
+    and `{**adict}` accept mappings only: update() with a list / zip / generator of pairs - legal for a dict, and what the library's own from_frame hands
+    over - raises TypeError and stores nothing."""
+    m = repo.mod('_archives')
+    n = 0
+    for lab, ci in sorted(m.classes.items()):
+        if 'archive' not in ci.name:
+            continue
+        own = ci.own_methods if hasattr(ci, 'own_methods') else ci.methods
+        fi = own.get('update')
+        if fi is None or len(fi.node.args.args) < 2:
+            continue
+        n += 1
+        p = fi.node.args.args[1].arg
+        hit = None
+        for x in ast.walk(fi.node):
+            if isinstance(x, ast.BinOp) and isinstance(x.op, ast.BitOr) and any(isinstance(y, ast.Name) and y.id == p for y in (x.left, x.right)):
+                hit = x
+            elif isinstance(x, ast.AugAssign) and isinstance(x.op, ast.BitOr) and isinstance(x.value, ast.Name) and x.value.id == p:
+                hit = x
+            elif isinstance(x, ast.Dict) and any(k is None and isinstance(v, ast.Name) and v.id == p for k, v in zip(x.keys, x.values)):
+                hit = x
+        ctx.ob('A-EQ', '%s.update merges its argument the way dict.update does' % lab, hit is None)
+        if hit is not None:
+            ctx.fail('A-EQ', mq(ci, 'update'), 'update merges with %s' % unparse(hit)[:40],
+                     '%s.update combines its argument with `%s`: the | operator and ** unpacking take mappings only, dict.update also takes any iterable of (key, value) '
+                     'pairs - update(zip(keys, values)), update(list_of_pairs) and the generator klepto\'s own from_frame passes raise TypeError and store nothing'
+                     % (lab, ' '.join(unparse(hit).split())[:60]), wh(ci, hit.lineno))
+    if n < 3:
+        raise AnalysisError('instance count below confirmed minimum: %d archive classes with an update() of their own' % n)
+
+
+def rule_A_LOCATION_VERBATIM(ctx, repo):
+    """A-FNAME (the location is the text the caller gave).  The sqlite archives take everything after `sqlite:///` as the database file.  Parsing the
+    location as a URL (urllib.parse.urlsplit / urlparse / unquote) cuts it at `?` and `#` and decodes `%xx`: `results#1.db` and `results#2.db` become the one
+    file `results` - two archives share their entries, and the files the caller named are never created."""
+    m = repo.mod('_archives')
+    hits = [x for x in ast.walk(m.tree) if isinstance(x, ast.Call) and ((isinstance(x.func, ast.Name) and x.func.id in ('urlsplit', 'urlparse', 'unquote', 'url2pathname'))
+                                                                         or (isinstance(x.func, ast.Attribute) and x.func.attr in ('urlsplit', 'urlparse', 'unquote', 'url2pathname')))]
+    ctx.ob('A-FNAME', 'archive locations are not parsed as URLs', not hits)
+    for x in hits:
+        ctx.fail('A-FNAME', '%s:%d' % (m.rel, x.lineno), 'location parsed with %s' % unparse(x.func),
+                 '`%s` treats an archive location as a URL: the path ends at the first `?` or `#` and %%xx sequences are decoded, so two different locations '
+                 '(results#1.db, results#2.db) name one database file - a fresh handle on one sees what was written to the other' % ' '.join(unparse(x).split())[:60],
+                 '%s:%d' % (m.rel, x.lineno))
